@@ -267,4 +267,17 @@ def builtinCost (cm : CostModel) (sem : Sem) (b : Builtin) (args : List Value) :
   | some m, some c => pure ⟨m, c⟩
   | _, _ => .unmodelled
 
+/-- `to_ex_budget` under an explicit recipe (used with the SPEC table of `Model/CostSpecTable.lean`) -/
+def builtinCostWith (spec : CostSpec) (cm : CostModel) (sem : Sem) (b : Builtin) (args : List Value) : Res ExBudget := do
+  runPre b args spec.pre
+  let ms ← measures sem b args spec.memArgs
+  let cs ← measures sem b args spec.cpuArgs
+  let memF ← (match cm.builtin.find? (fun p => p.1 == spec.memField) with
+    | some (_, m, _) => Res.ok m | none => Res.unmodelled)
+  let cpuF ← (match cm.builtin.find? (fun p => p.1 == spec.cpuField) with
+    | some (_, _, c) => Res.ok c | none => Res.unmodelled)
+  match memF.apply ms, cpuF.apply cs with
+  | some m, some c => pure ⟨m, c⟩
+  | _, _ => .unmodelled
+
 end AikenVerif
